@@ -10,6 +10,7 @@ import (
 	"fmt"
 	"io"
 	"sort"
+	"sync"
 
 	"archive/tar"
 
@@ -96,14 +97,36 @@ func unzstd(b []byte) ([]byte, error) {
 	return io.ReadAll(dec)
 }
 
+var zstdEncs struct {
+	mu   sync.Mutex
+	encs map[zstd.EncoderLevel]*zstd.Encoder
+}
+
+// zstdEnc returns a shared encoder (creating one is expensive, EncodeAll is concurrency-safe).
+func zstdEnc(lvl zstd.EncoderLevel) *zstd.Encoder {
+	zstdEncs.mu.Lock()
+	defer zstdEncs.mu.Unlock()
+	if zstdEncs.encs == nil {
+		zstdEncs.encs = map[zstd.EncoderLevel]*zstd.Encoder{}
+	}
+	if e, ok := zstdEncs.encs[lvl]; ok {
+		return e
+	}
+	e, err := zstd.NewWriter(nil, zstd.WithEncoderLevel(lvl), zstd.WithEncoderConcurrency(1), zstd.WithLowerEncoderMem(true))
+	if err != nil {
+		return nil
+	}
+	zstdEncs.encs[lvl] = e
+	return e
+}
+
 func zstdTo(payload []byte, target int) ([]byte, bool) {
-	for _, lvl := range []zstd.EncoderLevel{zstd.SpeedBestCompression, zstd.SpeedBetterCompression, zstd.SpeedDefault, zstd.SpeedFastest} {
-		enc, err := zstd.NewWriter(nil, zstd.WithEncoderLevel(lvl))
-		if err != nil {
+	for _, lvl := range []zstd.EncoderLevel{zstd.SpeedFastest, zstd.SpeedDefault, zstd.SpeedBetterCompression} {
+		enc := zstdEnc(lvl)
+		if enc == nil {
 			continue
 		}
 		c := enc.EncodeAll(payload, nil)
-		enc.Close()
 		d := target - len(c)
 		if d == 0 {
 			return c, true
@@ -163,9 +186,7 @@ func (bc *blobCase) withTOC(base []byte, tocJSON []byte) (blob, ext []byte) {
 	case fExternal:
 		return append([]byte{}, base...), gzipTarTOC(tocJSON)
 	case fZstd:
-		enc, _ := zstd.NewWriter(nil)
-		c := enc.EncodeAll(tocJSON, nil)
-		enc.Close()
+		c := zstdEnc(zstd.SpeedDefault).EncodeAll(tocJSON, nil)
 		out := append([]byte{}, base[:f.tocOff-8]...)
 		out = append(out, skippable(c)...)
 		ft := make([]byte, 40)
